@@ -1,12 +1,13 @@
 //! Engine S harness crate: real SQLite glue over the generated relational stand-in.
 #![allow(dead_code, unused_variables, unused_imports, static_mut_refs, clippy::all)]
 
-/// the real glue of the current tree, unmodified
-#[path = "/repo/sqlite/src/lib.rs"]
+/// the real glue of the current tree: its text byte for byte (regenerated from /repo on every
+/// run by s/gen_glue.py) plus an appended access module, see there
+#[path = "gen_real.rs"]
 pub mod real_sqlite;
 
-/// the glue of the pinned release (the "old writer" of C19)
-#[path = "/verif/fixtures/pinned/sqlite_lib.rs"]
+/// the glue of the pinned release (the "old writer" of C19), same construction
+#[path = "gen_old.rs"]
 pub mod old_sqlite;
 
 #[macro_use]
